@@ -457,11 +457,8 @@ Definition st_end_top (s : sc) : res sc :=
   else if is_annotation_start c then switch_to_annotation s
   else if is_comment_start s c then switch_to_comment s
   else if negb (is_blank c) then
-    if s_lc s then
-      match s_stk s with
-      | _ :: _ => ROk (set_htc true s)
-      | [] => ROk (found EndTop s)
-      end
+    if s_lc s then ROk (found EndTop s)       (* fix 555884d: the event is produced at the foreign byte itself; hasTrailingCharacters is gone
+                                                  (the field s_htc stays in the record and is never set) *)
     else if ann_none s then err_char
     else fin s
   else fin s.
@@ -955,6 +952,14 @@ Fixpoint length_loop (size : N) (evs : list lexev) (len : N) : N * bool :=
     | _ => length_loop size r (if N.eqb (e_end e) size then e_end e else (e_end e + 1)%N)
     end
   end.
+(* fix c67ddfe: line breaks (and user comments, which deliver no event) before the first lexeme of the
+   schema are not counted *)
+Fixpoint drop_leading_newlines (evs : list lexev) : list lexev :=
+  match evs with
+  | e :: r => match e_type e with NewLine => drop_leading_newlines r | _ => evs end
+  | [] => []
+  end.
+Definition code_empty_schema : N := 202.
 Fixpoint trim_blank_rev (rbs : bytes) : bytes :=
   match rbs with
   | c :: r => if is_blank c then trim_blank_rev r else rbs
@@ -963,10 +968,12 @@ Fixpoint trim_blank_rev (rbs : bytes) : bytes :=
 Definition schema_len (bs : bytes) : verdict :=
   let '(evs, o) := scan true bs in
   let size := N.of_nat (length bs) in
-  let '(raw, stopped) := length_loop size evs 0%N in
+  let '(raw, stopped) := length_loop size (drop_leading_newlines evs) 0%N in
   let trimmed :=
       if N.ltb size raw then VPanic     (* s.data[length-1]: index out of range *)
-      else VLen (N.of_nat (length (trim_blank_rev (frev (firstn (N.to_nat raw) bs))))) in
+      else let n := N.of_nat (length (trim_blank_rev (frev (firstn (N.to_nat raw) bs)))) in
+           if N.eqb n 0 then VErr code_empty_schema 0%N     (* Schema.computeLen: nothing was found *)
+           else VLen n in
   if stopped then trimmed
   else match o with
        | Done => trimmed
